@@ -12,7 +12,8 @@ HOOKS = {
                        "verif hook: expose removeWhitespace, name allocation and encodeIdent (compiler/verif_hooks_c16.go)",
                        "verif hook: let a session use the build cache (build/verif_hooks_c20.go)",
                        "verif hook: expose the dead-code selection as the linker computes it (compiler/verif_hooks_c05.go)",
-                       "verif hook: extend the C16 name-allocation hook with generic child contexts and varPtrName (compiler/verif_hooks_c16.go)"],
+                       "verif hook: extend the C16 name-allocation hook with generic child contexts and varPtrName (compiler/verif_hooks_c16.go)",
+                       "verif hook: expose funcContext.objectName to the C16 naming tie (compiler/verif_hooks_c16.go)"],
     "add_only": True,
 }
 
